@@ -110,9 +110,25 @@ def run_c07(ck):
                        "accepted": [not r.get("error") for r in rs]}, limit=3)
     failed = tv.judge(ck, "TraceAsm", "TraceAsm.cfg", events, ck.wd, tag="asm7", shard=25, timeout=2400, jobs=6)
     ck.traces += len(events) * (k + 1)
+    def blank_made_operand(case):
+        # syntactic witness for the known finding F50: some rendering puts a blank between a word and the
+        # punctuation glued to it in the canonical line (`nop(x)` -> `nop (x)`)
+        progs_ = [Q for Q, _ in groups[case]]
+        canon = progs_[0]
+        for Q in progs_[1:]:
+            for a, b in zip(canon["items"], Q["items"]):
+                if a["k"] != "instr":
+                    continue
+                for j in range(1, min(len(a["toks"]), len(b["toks"]))):
+                    if a["toks"][j]["k"] == "op" and a["toks"][j - 1]["k"] == "id" and not a["toks"][j]["b"] and b["toks"][j]["b"]:
+                        return True
+        return False
+
     for case in sorted(failed):
         for tag in sorted(set(failed[case])):
             base = case * (k + 1)
+            if tag == "spec-not-invariant" and blank_made_operand(case):
+                tag += ":blank-between-word-and-glued-punctuation"
             ck.violation("TraceAsm:C07:" + tag,
                          {"verdict": tag, "canonical": jobs[base]["files"]["main.asm"],
                           "renderings": [jobs[base + j]["files"]["main.asm"] for j in range(1, min(k, 2) + 1)],
